@@ -119,17 +119,10 @@ def run(ctx):
         if a != b:
             ctx.fail(key, what + ": %s gives %s, %s gives %s" % (ref, a, dev, b), fcases[2 * j:2 * j + 2], [a, b], a)
 
-    run_model_streams(ctx)
 
-
-def run_model_streams(ctx):
-    """correspondence of the Gallina tape-path model with the implementation (phase 1: the real
-    parser prints its tape; phase 2: model on the tape vs. implementation on the bytes)"""
-    try:
-        from props import C02_model
-    except ImportError:
-        return
-    C02_model.run(ctx)
+    # scalar level: extracted Serde.text_scalar (typed hints with fall-back) against the real slice path
+    from props import descalar
+    ctx.correspond("scalar-hints", descalar.text_cases(ctx, ctx.scale(300, 3000)), nontrivial=nt)
 
 
 def search(ctx):
